@@ -408,9 +408,40 @@ pub fn gen_decl(t: &mut Tape) -> (Decl, SpecTable) {
     (d, spec)
 }
 
+/// A path may name the same master more than once ("only in a folder nested in another folder"): Archive/(-)/Folder/(-)/Folder.  The
+/// declaration stays well formed — the direct parent is the last named element, and the path begins with that parent's own path followed by
+/// the parent — and what the macro generates must still be the path as written.
+fn name_parent_twice(t: &mut Tape, d: &mut Decl) -> bool {
+    // (an element nothing else is declared under: the paths of its children would have to change with it)
+    let cands: Vec<usize> = (0..d.vars.len())
+        .filter(|&i| d.vars[i].path.iter().any(|p| matches!(p, PP::Name(_))) && !d.vars.iter().any(|v| v.path.iter().any(|p| matches!(p, PP::Name(n) if *n == d.vars[i].name))))
+        .collect();
+    if cands.is_empty() {
+        return false;
+    }
+    let i = cands[t.below(cands.len())];
+    let parent = d.vars[i].path.iter().rev().find_map(|p| if let PP::Name(n) = p { Some(n.clone()) } else { None }).unwrap();
+    if !matches!(d.vars[i].path.last(), Some(PP::Global(..))) {
+        let g = match t.below(3) {
+            0 => PP::Global(None, None),
+            1 => PP::Global(Some(1), None),
+            _ => PP::Global(None, Some(1 + t.below(3) as u64)),
+        };
+        d.vars[i].path.push(g);
+    }
+    d.vars[i].path.push(PP::Name(parent));
+    if t.chance(1, 3) {
+        d.vars[i].path.push(PP::Global(None, None));
+    }
+    true
+}
+
 fn stage_valid(i: &Input, c: &mut Case) -> Result<(), String> {
     let mut t = Tape::new(i.tape());
-    let (d, spec) = gen_decl(&mut t);
+    let (mut d, spec) = gen_decl(&mut t);
+    if t.chance(1, 6) && name_parent_twice(&mut t, &mut d) {
+        c.label("path_names_its_parent_twice");
+    }
     let a_src = render_attr(&d);
     let e_src = render_easy(&d);
     c.key(&a_src);
